@@ -32,6 +32,9 @@ UNORDERED_CALLS = {"set", "frozenset", "get_read_variables", "get_written_variab
                    "collect_user_types", "get_all_used_identifiers"}
 LAUNDER = {"sorted", "natsorted", "len", "any", "all", "sum", "min", "max", "set", "frozenset", "bool"}
 ORDER_FREE_CONSUMERS = {"set", "frozenset", "sorted", "natsorted", "any", "all", "len", "sum", "min", "max", "dict"}
+# attributes that identify an element uniquely within the collections that are sorted by them
+UNIQUE_ATTRS = {"id": "statement ids are unique within a phase (checked by verify_code, C10)",
+                "name": "function descriptors are registered under distinct names"}
 SET_MUTATORS = {"add", "update", "discard", "remove", "difference_update", "intersection_update"}
 
 
@@ -163,6 +166,10 @@ def sites_of(relpath):
                         break
                 if site is None:
                     continue
+            elif isinstance(node, pyast.Call) and func_name(node) in ("sorted", "natsorted") and node.args:
+                # sorting launders the order of an unordered collection only if the sort key separates all
+                # distinct elements (Python's sort is stable: ties keep the incoming, i.e. hash, order)
+                site = ("sort", node.args[0], node)
             elif isinstance(node, pyast.Call) and func_name(node) in ("list", "tuple", "join", "next") and node.args:
                 arg = node.args[0]
                 if isinstance(arg, (pyast.ListComp, pyast.GeneratorExp)):
@@ -211,6 +218,20 @@ def classify(kind, it, node, pm, taint, qual=None):
         if isinstance(par, pyast.Call) and func_name(par) in SET_MUTATORS | {"update"}:
             return True, "fed to a set/dict update"
         return False, "list / generator over an unordered collection whose consumer may depend on the order"
+    if kind == "sort":
+        keys = [k for k in node.keywords if k.arg == "key"]
+        if not keys:
+            return True, "sorted without a key: elements (strings / tuples of strings) are totally ordered"
+        k = keys[0].value
+        txt = pyast.unparse(k)
+        if isinstance(k, pyast.Lambda) and len(k.args.args) == 1 and isinstance(k.body, pyast.Attribute) \
+                and isinstance(k.body.value, pyast.Name) and k.body.value.id == k.args.args[0].arg \
+                and k.body.attr in UNIQUE_ATTRS:
+            return True, "sort key %s: %s" % (txt, UNIQUE_ATTRS[k.body.attr])
+        if txt in ("itemgetter(0)", "operator.itemgetter(0)") and pyast.unparse(node.args[0]).endswith(".items()"):
+            return True, "sort key itemgetter(0) over dict items: keys of a dict are distinct"
+        return False, ("sorted with key %s, which is not known to separate distinct elements: ties keep the hash order "
+                       "of the collection" % txt)
     if kind.startswith("conversion"):
         if isinstance(par, pyast.Call) and func_name(par) in ORDER_FREE_CONSUMERS:
             return True, "consumed by %s(...)" % func_name(par)
